@@ -33,12 +33,16 @@ def m_OrderedDict_from_pairs(KT, VT):
             s = s.sym()
         assert isinstance(s, Sym) and isinstance(s.ty, TSeq) and isinstance(s.ty.elt, TTup), s
         tt = s.ty.elt
-        m = MapVal.fresh("od", KT, VT, ordered=True)
+        m = MapVal.fresh("od", KT, VT, ordered=True, with_keys=True)
         n = z3.Length(s.term)
         i, j = z3.Int(sv.fresh_name("i")), z3.Int(sv.fresh_name("j"))
         k = z3.Const(sv.fresh_name("k"), KT.sort())
         fst = lambda t: tt.get(t, 0)
-        snd = lambda t: tt.get(t, 1)
+        if isinstance(tt.elts[1], TOpt) and tt.elts[1].inner.sort() == VT.sort():
+            # values typed Optional but filtered to be present (the usual `if x is not None` comprehension)
+            snd = lambda t: tt.elts[1].val(tt.get(t, 1))
+        else:
+            snd = lambda t: tt.get(t, 1)
         eng.assume(z3.ForAll([i], z3.Implies(z3.And(0 <= i, i < n), m.has(fst(s.term[i])))), heavy=True)
         # every bound key has a last occurrence, and that occurrence gives the value (last binding wins)
         eng.assume(
